@@ -68,6 +68,16 @@ type vfChain struct {
 	execErr map[string]string // pool-entry hash -> error text returned by "execs"
 	nonce   map[string]int64  // eth sender -> current nonce returned by "rpc"
 	bcast   int               // EventTxBroadcast messages seen by "p2p"
+	// gate > 0: the "blockchain" fake holds its duplicate-check answers until that many submissions wait for one, then
+	// answers them all and stays open. Every held submission has passed the synchronous checks of the event loop and
+	// none has reached the final push: the harness thereby scripts "several submissions in the pipeline at once"
+	// without any dependence on timing.
+	gate int
+	held []func()
+	// nonceGate > 0: likewise the "rpc" fake holds its current-nonce answers until that many eth-signed submissions
+	// wait for one (they are then all just before the pending-nonce test)
+	nonceGate int
+	nonceHeld []func()
 }
 
 func (c *vfChain) setHeader(height, blockTime int64) {
@@ -116,8 +126,21 @@ func (c *vfChain) serve(cli queue.Client, topic string) {
 						dup = append(dup, h)
 					}
 				}
+				m := msg
+				answer := func() { m.Reply(cli.NewMessage("", types.EventTxHashListReply, &types.TxHashList{Hashes: dup})) }
+				var run []func()
+				if c.gate > 0 {
+					c.held = append(c.held, answer)
+					if len(c.held) >= c.gate {
+						run, c.held, c.gate = c.held, nil, 0
+					}
+				} else {
+					run = []func(){answer}
+				}
 				c.mu.Unlock()
-				msg.Reply(cli.NewMessage("", types.EventTxHashListReply, &types.TxHashList{Hashes: dup}))
+				for _, f := range run {
+					f()
+				}
 			case types.EventCheckTx:
 				res := &types.ReceiptCheckTxList{}
 				c.mu.Lock()
@@ -129,8 +152,21 @@ func (c *vfChain) serve(cli queue.Client, topic string) {
 			case types.EventGetEvmNonce:
 				c.mu.Lock()
 				n := c.nonce[msg.Data.(*types.ReqEvmAccountNonce).Addr]
+				m := msg
+				answer := func() { m.Reply(cli.NewMessage("", types.EventGetEvmNonce, &types.EvmAccountNonce{Nonce: n})) }
+				var run []func()
+				if c.nonceGate > 0 {
+					c.nonceHeld = append(c.nonceHeld, answer)
+					if len(c.nonceHeld) >= c.nonceGate {
+						run, c.nonceHeld, c.nonceGate = c.nonceHeld, nil, 0
+					}
+				} else {
+					run = []func(){answer}
+				}
 				c.mu.Unlock()
-				msg.Reply(cli.NewMessage("", types.EventGetEvmNonce, &types.EvmAccountNonce{Nonce: n}))
+				for _, f := range run {
+					f()
+				}
 			case types.EventTxBroadcast:
 				c.mu.Lock()
 				c.bcast++
@@ -544,6 +580,8 @@ type vfMachine struct {
 	fullSubmits          int
 	history              []map[string]interface{}
 	nontrivial           bool
+	hotBias              bool // concurrent variant: half of the transactions come from one "hot" plain sender
+	hot                  int
 }
 
 func (m *vfMachine) render() interface{} {
@@ -574,6 +612,9 @@ func (m *vfMachine) newRec(group bool) *vfTxRec {
 	rec := &vfTxRec{ID: fmt.Sprintf("t%d", len(m.known))}
 	for i := 0; i < n; i++ {
 		sp := vfTxSpec{Sender: m.intn(vfNumSenders, "sender"), To: m.intn(vfNumSenders, "to")}
+		if m.hotBias && m.intn(2, "fromHot") == 0 {
+			sp.Sender = m.hot
+		}
 		if vfSenders[sp.Sender].eth {
 			sp.Nonce = int64(m.intn(4, "ethNonce"))
 			sp.To = 0 // keeps eth transactions of one sender and nonce identical, so that they collide by hash
@@ -1019,7 +1060,10 @@ func TestPropBookkeepingConc(t *testing.T) {
 		e := vfNewEnv(vfOpts{cap: capacity, perAcc: perAcc, maxLast: maxLast})
 		defer e.close()
 		// transaction table: 3 per worker, mixed singles / groups / expiries near the heights the run will reach
-		gen := &vfMachine{t: t, e: e, byHash: map[string]*vfTxRec{}, height: vfBaseHeight, btime: vfBaseTime}
+		// one hot sender, so that several of its transactions are in the admission pipeline at once while it sits near
+		// its limit: the limit must hold at the final push, not only at the early check in the event loop
+		gen := &vfMachine{t: t, e: e, byHash: map[string]*vfTxRec{}, height: vfBaseHeight, btime: vfBaseTime, hotBias: true}
+		gen.hot = gen.intn(4, "hotSender")
 		for len(gen.known) < 3*workers {
 			gen.newRec(gen.intn(5, "isGroup") == 0)
 		}
@@ -1034,8 +1078,10 @@ func TestPropBookkeepingConc(t *testing.T) {
 			for i, n := 0, rapid.IntRange(4, 10).Draw(t, "nops"); i < n; i++ {
 				var o vfConcOp
 				switch k := gen.intn(20, "cop"); {
-				case k < 8:
+				case k < 5:
 					o = vfConcOp{Op: "submit", Txs: []int{own[gen.intn(3, "own")]}}
+				case k < 8: // all own transactions without waiting for the replies in between
+					o = vfConcOp{Op: "burst", Txs: own}
 				case k < 11:
 					o = vfConcOp{Op: "addBlock", Txs: own[:1+gen.intn(3, "nblk")]}
 				case k < 12:
@@ -1125,6 +1171,27 @@ func TestPropBookkeepingConc(t *testing.T) {
 							atomic.AddInt64(&admitted, 1)
 						case string(r.Msg) == types.ErrMemFull.Error() || string(r.Msg) == types.ErrManyTx.Error():
 							atomic.AddInt64(&limitRejects, 1)
+						}
+					case "burst":
+						var msgs []*queue.Message
+						for _, i := range o.Txs {
+							m := cli.NewMessage("mempool", types.EventTx, recs[i].tx)
+							if err := cli.Send(m, true); err != nil {
+								lib.Inconclusive("send failed: %v", err)
+							}
+							msgs = append(msgs, m)
+						}
+						for _, m := range msgs {
+							resp, err := cli.WaitTimeout(m, vfWatchdog)
+							if err == queue.ErrQueueTimeout || resp == nil {
+								lib.Inconclusive("no reply to a burst submission within %v", vfWatchdog)
+							}
+							switch r := resp.GetData().(*types.Reply); {
+							case r.IsOk:
+								atomic.AddInt64(&admitted, 1)
+							case string(r.Msg) == types.ErrMemFull.Error() || string(r.Msg) == types.ErrManyTx.Error():
+								atomic.AddInt64(&limitRejects, 1)
+							}
 						}
 					case "addBlock":
 						hmu.Lock()
